@@ -104,11 +104,11 @@ def run_single(ctx, rng, N):
 
 
 def run_cross(ctx, rng, N):
-    names = ["CPCCA", "MCA", "CCA", "RDA", "ComplexMCA"]
+    names = ["CPCCA", "MCA", "CCA", "RDA", "ComplexMCA", "ComplexCPCCA", "HilbertCPCCA"]
     for i in range(N):
         name = names[i % len(names)]
         sp = Z.specs()[name]
-        n = int(rng.integers(10, 18))
+        n = int(rng.integers(10, 18)) + (14 if name in ("ComplexCPCCA", "HilbertCPCCA") else 0)
         p1, p2 = int(rng.integers(3, 6)), int(rng.integers(3, 6))
         X = Z.data2d(rng, n, p1, "x", cplx=sp.cplx)
         Y = Z.data2d(rng, n, p2, "y", cplx=sp.cplx)
@@ -119,8 +119,12 @@ def run_cross(ctx, rng, N):
         k = int(rng.integers(2, kb + 1))
         power = int(rng.choice([1, 1, 2, 3]))
         kw = dict(use_pca=bool(rng.random() < 0.5), n_pca_modes="all")
-        if name == "CPCCA":
+        if name in ("CPCCA", "ComplexCPCCA", "HilbertCPCCA"):
             kw["alpha"] = [float(rng.choice([0.0, 0.5, 1.0])), float(rng.choice([0.0, 0.5, 1.0]))]
+        if name == "ComplexCPCCA":
+            # genuinely complex whitening matrices: no pre-reduction, whitening degree below one in at least one field
+            kw["use_pca"] = False
+            kw["alpha"] = [float(rng.choice([0.0, 0.3, 0.5])), float(rng.choice([0.0, 0.5, 1.0]))]
         replay = dict(kind="cross", cls=name, X=np.asarray(X.values), Y=np.asarray(Y.values), kb=kb, k=k, power=power, kw=kw)
         ctx.case(("c11x", name, n, p1, p2, kb, k, power, str(kw)), nontrivial=True, tag="%sRotator/power%d%s" % (name, power, "/refit" if i % 3 == 2 else ""),
                  sample=dict(cls=name + " rotator", shapes=[[n, p1], [n, p2]], base_modes=kb, n_modes=k, power=power, kw=kw))
@@ -153,6 +157,7 @@ def run_cross(ctx, rng, N):
             continue
         key = "C11:CPCCARotator"
         if not (Z.same(rx.transpose(*X.dims).values, bx.transpose(*X.dims).values, 1e-6) and Z.same(ry.transpose(*Y.dims).values, by.transpose(*Y.dims).values, 1e-6)):
+            ctx.dist["c11:cross:recon-differs:%s" % name] += 1
             ctx.violation(key + ":recon", "rotator(power=%d) on %s%r: reconstruction from rotated scores differs from the %d-mode unrotated one" % (power, name, kw, k), replay)
         sc = rot.data["squared_covariance"].values
         if np.any(np.diff(sc) > 1e-9 * sc.max()):
